@@ -271,7 +271,7 @@ func checkC01(tier string) {
 	}
 	r.RunBatch(mon.Batch{Worker: "c01", Tag: "directed", N: nd, Chunk: (nd + 7) / 8, Parallel: 8, Params: c01Params{Family: "directed"}, Timeout: 10 * time.Minute, OnDeath: onDeath})
 	n := r.Pick(150000, 3000000)
-	r.RunBatch(mon.Batch{Worker: "c01", N: n, Chunk: (n + 15) / 16, Parallel: 16, Params: c01Params{Family: "random"}, Timeout: 40 * time.Minute, OnDeath: onDeath})
+	r.RunBatch(mon.Batch{Worker: "c01", N: n, Chunk: (n + 15) / 16, Parallel: 16, Params: c01Params{Family: "random"}, Timeout: 40 * time.Minute, MemKB: 8 << 20, OnDeath: onDeath})
 	r.Floor(1000)
 	r.Finish()
 }
